@@ -6,7 +6,12 @@ from cobald.composite.factory import FactoryPool
 
 from ..core import Task
 from ..symx import And, Implies, Not, Or
-from .common import FakeTrio, RecPool, patched, same
+from .common import FakeTrio, RecPool, numeric_stubs, patched, same
+
+# int() / float() / math.floor / math.ceil as seen from the modules under test act on proxies (stubs, listed in evidence)
+for _m in (factory_mod,):
+    for _mod, _name, _val in numeric_stubs(_m):
+        setattr(_mod, _name, _val)
 
 PROPERTY = "C15"
 MOD = __name__
@@ -36,7 +41,7 @@ MANIFEST = {
             "mortuary never shrinks; floats are exact reals",
     "design_ref": "DESIGN.md §3 C15",
 }
-STUBS = ["trio (as seen from cobald.composite.factory) -> sleep yields to the driver"]
+STUBS = ["int / float / math.floor / math.ceil (as seen from the modules under test) accept number proxies", "trio (as seen from cobald.composite.factory) -> sleep yields to the driver"]
 ASSUMPTIONS = [
     "children: demand >= 0, supply >= 0, utilisation >= 0, allocation >= 0; released children keep demand 0",
     "pre-state invariant: hatchery and mortuary disjoint, mortuary demands are 0, every child came from the "
@@ -312,6 +317,20 @@ def tasks(tier, seed):
     out.append(Task(MOD, "bad_factory"))
     for n in range(0, 4):
         out.append(Task(MOD, "init", dict(n=n)))
+    return out
+
+
+def PROBES(tier):
+    """factories whose children differ in demand (code that sizes a batch from the first child cannot be carried
+    symbolically through range()); run through the same grow harness on concrete numbers"""
+    out = []
+    for demands, target in (((4, 1, 1), 6), ((1, 4, 4), 6), ((2, 2, 5), 3), ((1, 1, 1), 3), ((5, 1, 1), 5.5), ((0.5, 0.25, 8), 0.75)):
+        inputs = {"interval": 1, "target": target}
+        for i, d in enumerate(demands):
+            inputs.update({"fd%d" % i: d, "fu%d" % i: 1.0, "fa%d" % i: 1.0})
+        out.append(("grow", dict(nh=0, nm=0), inputs, "R"))
+        inputs2 = dict(inputs, hd0=0.5, hs0=1.0, hu0=1.0, ha0=1.0)
+        out.append(("grow", dict(nh=1, nm=0), inputs2, "R"))
     return out
 
 
